@@ -3,6 +3,8 @@ package main
 import (
 	"encoding/json"
 	"fmt"
+	"reflect"
+	"sort"
 	"strings"
 
 	be "github.com/echoface/be_indexer"
@@ -116,6 +118,103 @@ func execCache(raw json.RawMessage) (res execResult, err error) {
 	res.Dist = fmt.Sprintf("thr=%d/miss=%d/drop=%d/hits>0=%v", in.Thr, in.MissPct, in.DropPct, cache.hits > 0)
 	res.NonTrivial = cache.hits > 0 && plain.NonTrivial
 	res.Summary = map[string]interface{}{"plain": plain.Summary, "cache_hits": cache.hits, "cache_entries": len(cache.data)}
+	return
+}
+
+// flagHolder: a custom container registered through the public extension point.  It serves boolean flags; its cache
+// codec writes `true` as one byte and `false` as NO bytes (as a protobuf BoolValue would).
+type flagTx struct{ v bool }
+
+func (t *flagTx) BetterToCache() bool     { return false }
+func (t *flagTx) Encode() ([]byte, error) { return map[bool][]byte{true: {1}, false: {}}[t.v], nil }
+
+type flagHolder struct{ pl map[bool]be.Entries }
+
+func (h *flagHolder) EnableDebug(bool)             {}
+func (h *flagHolder) DumpInfo(*strings.Builder)    {}
+func (h *flagHolder) DumpEntries(*strings.Builder) {}
+func (h *flagHolder) GetEntries(field *be.FieldDesc, assigns be.Values) (be.EntriesCursors, error) {
+	v, ok := assigns.(bool)
+	if !ok {
+		return nil, fmt.Errorf("flag field needs a bool")
+	}
+	if len(h.pl[v]) == 0 {
+		return nil, nil
+	}
+	return be.EntriesCursors{be.NewEntriesCursor(be.NewQKey(field.Field, v), h.pl[v])}, nil
+}
+func (h *flagHolder) IndexingBETx(_ *be.FieldDesc, bv *be.BoolValues) (be.TxData, error) {
+	v, ok := bv.Value.(bool)
+	if !ok {
+		return nil, fmt.Errorf("flag field needs a bool")
+	}
+	return &flagTx{v}, nil
+}
+func (h *flagHolder) CommitIndexingBETx(tx be.IndexingBETx) error {
+	d := tx.Data.(*flagTx)
+	h.pl[d.v] = append(h.pl[d.v], tx.EID)
+	return nil
+}
+func (h *flagHolder) DecodeTxData(data []byte) (be.TxData, error) {
+	return &flagTx{len(data) > 0 && data[0] == 1}, nil
+}
+func (h *flagHolder) CompileEntries() error {
+	for _, l := range h.pl {
+		sort.Sort(l)
+	}
+	return nil
+}
+
+// customContainerCacheProbe: cached builds (cold, warm) against the plain build on an index with a flagHolder field
+func customContainerCacheProbe() (calls int, viol []string) {
+	be.RegisterEntriesHolder("verif_flag", func() be.EntriesHolder { return &flagHolder{pl: map[bool]be.Entries{}} })
+	old := be.BetterToCacheMaxItemsCount
+	be.BetterToCacheMaxItemsCount = 2
+	defer func() { be.BetterToCacheMaxItemsCount = old }()
+	ints := func(k, off int) []int {
+		l := make([]int, k)
+		for i := range l {
+			l[i] = off + i
+		}
+		return l
+	}
+	for _, kind := range []string{"kgroups", "compact"} {
+		build := func(cache be.CacheProvider) be.BEIndex {
+			c := eCase{Kind: kind, Policy: "error"}
+			var b *be.IndexerBuilder
+			if cache != nil {
+				b = newBuilder(&c, be.WithCacheProvider(cache))
+			} else {
+				b = newBuilder(&c)
+			}
+			b.ConfigField(fieldName(5), be.FieldOption{Container: "verif_flag"})
+			for id, cj := range map[int]*be.Conjunction{
+				1: be.NewConjunction().In(fieldName(5), false).In(fieldName(0), ints(6, 0)),
+				3: be.NewConjunction().In(fieldName(5), true).In(fieldName(0), ints(6, 0)),
+				4: be.NewConjunction().NotIn(fieldName(5), false).In(fieldName(0), ints(5, 3)),
+				5: be.NewConjunction().In(fieldName(0), ints(2, 5)),
+			} {
+				d := be.NewDocument(be.DocID(id))
+				d.AddConjunction(cj)
+				b.AddDocument(d)
+			}
+			return b.BuildIndex()
+		}
+		plain := build(nil)
+		cache := &lossyCache{r: &Rand{s: 1}, data: map[be.ConjID][]byte{}}
+		for gen, idx := range []be.BEIndex{build(cache), build(cache), build(cache)} {
+			for _, q := range []be.Assignments{{fieldName(5): false, fieldName(0): 5}, {fieldName(5): true, fieldName(0): 5}, {fieldName(0): 5}, {fieldName(5): false, fieldName(0): 1}, {fieldName(5): true, fieldName(0): 7}} {
+				calls++
+				want, e1 := plain.Retrieve(q)
+				got, e2 := idx.Retrieve(q)
+				if (e1 != nil) != (e2 != nil) || !reflect.DeepEqual(docIDs(want), docIDs(got)) {
+					if len(viol) < 4 {
+						viol = append(viol, fmt.Sprintf("%s index with a custom flag container: cached build %d answers %v with %v (%v), the plain build with %v (%v)", kind, gen, q, docIDs(got), e2, docIDs(want), e1))
+					}
+				}
+			}
+		}
+	}
 	return
 }
 
@@ -382,5 +481,11 @@ func init() {
 			}
 		},
 		exec: execCache,
+		// a container the Coq model does not know (registered through the public extension point): cached builds are
+		// compared with the plain build directly
+		extra: func(tier string, seed uint64, outdir string) (map[string]interface{}, []string) {
+			calls, viol := customContainerCacheProbe()
+			return map[string]interface{}{"custom_container_cached_retrievals": calls}, viol
+		},
 	}
 }
